@@ -91,7 +91,9 @@ def literal_shapes(grammar, rule, limit=600):
             return out
         raise AnalysisError('shape of %r' % (n,))
     if rule not in grammar.rules:
-        raise AnalysisError('rule %s not in grammar' % rule)
+        # an undefined nonterminal produces nothing (reaching it at run time
+        # is a KeyError: rule R09.1 of C09 reports the reference itself)
+        return []
     out = []
     for s in seqs(grammar.rules[rule]):
         t = tuple(s)
